@@ -2,7 +2,7 @@
 import torch
 
 EVIDENCE = dict(
-    bounds="every 4-bit code symbolic (BV): v1 packing with and without column reordering on shapes rows in {4,8} x cols in {8,16,24,64}, v2 packing on (4,64), (8,128), (12,192) (quick: first two); v2 vs the reference external/awq/pack_intweight.py (interleave 4, kstride 64) by bit-vector equality of every packed word; representation equivalence on float16 group-128 tensors of shape (4,128) and (8,256) with arbitrary codes, int8 zero-points and positive scales; conversion back (qbits_tensor)",
+    bounds="every 4-bit code symbolic (BV): v1 packing with and without column reordering on shapes rows in {4,8} x cols in {8,16,24,64}, v2 packing on (4,64), (8,128), (12,192) (quick: first two); v2 vs the reference external/awq/pack_intweight.py (interleave 4, kstride 64) by bit-vector equality of every packed word; representation equivalence on float16 group-128 tensors of shape (4,128) and (8,256) with arbitrary codes, int8 zero-points and positive scales; conversion back (qbits_tensor); non-contiguous sources and view/in-place histories on (8,64); __tensor_flatten__/__tensor_unflatten__ round trip of AWQBitsTensor",
     outside="the CUDA gemm/gemv kernels that consume the layout; actual device moves; the selection of the optimised class in QBitsTensor.create/optimize (needs a CUDA device object); all of this code is executed on CPU tensors with the four `assert ...device.type == 'cuda'` statements removed in memory (listed in the evidence)",
     assumptions=["the numpy operations used by unpack_v2 and by the reference packer (astype, reshape, transpose, &, |, <<, >>, indexing) are interpreted by a bridge over the same terms", "AWQ modules imported with their device asserts deleted (nothing else changed)"],
 )
